@@ -67,6 +67,82 @@ def make_jobs(ctx: Ctx, data, per_logic):
     return jobs
 
 
+def targeted_jobs(ctx: Ctx, data, jobs):
+    """Failing-input search seeded by the Lean side (DESIGN §6 C01 search (i)): for every rule row whose soundness
+    side-check fails and that is not a committed known finding, build arguments around that node shape — the
+    shape as premise / conclusion (so that the trunk carries exactly the keyed node), a small pool of related
+    sentences on the other side — and have every 'valid' verdict refuted by the countermodel search."""
+    from pytableaux.lang import Atomic, Constant, Operated, Operator, Predicate, Quantified, Quantifier, Variable
+    from .c04 import _parse_keyname
+    rep = logicobl.report_lines() or []
+    rows = [(r[1], r[2]) for r in rep if r[0] == 'rules_exact' and any(t == 'sound=false' for t in r)]
+    new = [(lg, kn) for lg, kn in rows if ctx.match_known(f'C01:unsound-rule:{lg}:{kn}') is None]
+    by_rule = collections.defaultdict(list)
+    for lg, kn in new:
+        by_rule[kn].append(lg)
+    A, B = Atomic(0, 0), Atomic(1, 0)
+    m, n = Constant(0, 0), Constant(1, 0)
+    x = Variable(0, 0)
+    F = Predicate(0, 0, 1)
+    N = Operator.Negation
+    opn = {o.name: o for o in Operator}
+    qn = {q.name: q for q in Quantifier}
+    count = 0
+    for kn, lgs in sorted(by_rule.items()):
+        shape, ng, d = _parse_keyname(kn)
+        for lg in sorted(lgs)[:3]:
+            if shape in qn:
+                inners = [Quantified(qn[shape], x, F(x)), Quantified(qn[shape], x, N(F(x)))]
+                pool = [F(m), N(F(m)), F(n), N(F(n)), Quantified(Quantifier.Existential, x, F(x)), Quantified(Quantifier.Universal, x, F(x)),
+                        N(Quantified(Quantifier.Existential, x, N(F(x)))), N(Quantified(Quantifier.Universal, x, N(F(x))))]
+            elif opn[shape].arity == 1:
+                inners = [Operated(opn[shape], (A,)), Operated(opn[shape], (N(A),))]
+                pool = [A, N(A), Operated(Operator.Possibility, (A,)), Operated(Operator.Necessity, (A,)),
+                        N(Operated(Operator.Possibility, (N(A),))), B] if data[lg]['modal'] else [A, N(A), N(N(A)), B]
+            else:
+                inners = [Operated(opn[shape], (A, B)), Operated(opn[shape], (A, N(B))), Operated(opn[shape], (A, A))]
+                pool = [A, B, N(A), N(B), Operated(Operator.Conjunction, (A, B)), Operated(Operator.Disjunction, (A, B)),
+                        Operated(Operator.Disjunction, (N(A), B)), Operated(Operator.Conjunction, (N(A), N(B)))]
+            args = []
+            for inner in inners:
+                S = N(inner) if ng else inner
+                if d is False or (d is None and ng):
+                    # the keyed node sits on the trunk as the (undesignated / negated) conclusion
+                    concl = S if d is False else inner
+                    args += [([], concl)] + [([p1], concl) for p1 in pool] + [([p1, p2], concl) for p1 in pool[:4] for p2 in pool[4:]]
+                if d is not False:
+                    args += [([S], c) for c in pool] + [([S, p1], c) for p1 in pool[:4] for c in pool]
+            for prem, conc in args:
+                jobs.append(tabrun.job_for(len(jobs), lg, prem, conc, opts=tabrun.OPTS[0], mode='build', frag='targeted:' + kn,
+                                           search=20000, search_seed=ctx.seed, max_steps=400))
+                count += 1
+    # side conditions that are not rule rows: identity / closure / trunk
+    core = collections.defaultdict(list)
+    for r in rep:
+        if r[0] == 'sound_core':
+            for part in r[2:]:
+                core[part].append(r[1])
+    I = Predicate.Identity
+    E = Predicate.Existence
+    for part, lgs in sorted(core.items()):
+        if part == 'ident':
+            args = [([F(m)], I(m, n)), ([N(I(m, n))], I(m, n)), ([F(m), N(I(m, n))], F(n)), ([I(m, n)], I(n, m)), ([], I(m, m)),
+                    ([N(I(m, n))], B), ([I(m, m)], B), ([E(m)], B), ([N(E(m))], B), ([F(m)], N(I(m, n))), ([], N(I(m, n)))]
+        elif part == 'closure_sound':
+            lits = [A, N(A), N(N(A)), F(m), N(F(m))]
+            args = [([p1, p2], B) for p1 in lits for p2 in lits] + [([p1], c) for p1 in lits for c in lits + [B]]
+        elif part == 'trunk':
+            args = [([A], A), ([A], B), ([], A), ([], N(A)), ([A, B], Operated(Operator.Conjunction, (A, B))), ([N(A)], A), ([A], N(A))]
+        else:
+            continue
+        for lg in sorted(lgs)[:4]:
+            for prem, conc in args:
+                jobs.append(tabrun.job_for(len(jobs), lg, prem, conc, opts=tabrun.OPTS[0], mode='build', frag='targeted:' + part,
+                                           search=20000, search_seed=ctx.seed, max_steps=400))
+                count += 1
+    ctx.add_cov(targeted_search_jobs=count, targeted_rules=sorted(by_rule), targeted_core_parts=sorted(core))
+
+
 def unsound_rule_names(ctx, data, lg):
     rep = logicobl.report_lines() or []
     return {row[2] for row in rep if row[0] == 'rules_exact' and row[1] == lg and any(t == 'sound=false' for t in row)}
@@ -84,6 +160,7 @@ def run(ctx: Ctx):
     per_logic = ctx.scale(24, 200)
     seeds = [0, 1] if not ctx.thorough else [0, 1, 2, 3]
     jobs = make_jobs(ctx, data, per_logic)
+    targeted_jobs(ctx, data, jobs)
     stats = collections.Counter()
     rules_seen = collections.Counter()
     allouts = []
